@@ -62,7 +62,7 @@ REQUIRED_COUNTERS = [
     "reeval_calls[IPPO.learn]",
     "agent_boundary_rows",
 ]
-CASE_TIMEOUT_S = 180
+CASE_TIMEOUT_S = 600
 
 LOG2PI = math.log(2.0 * math.pi)
 _STATE = {"rec": None, "ctx": "idle", "installed": False, "last_fwd": {}, "last_actor_fwd": {}, "last_alp": None}
@@ -1046,6 +1046,9 @@ def run_case(case):
 
     rec = Recorder()
     _install()
+    # a watchdog alarm that interrupted an earlier case inside torch.no_grad().__enter__/__exit__ would leave
+    # autograd switched off for the rest of this worker: always start from the default mode
+    torch.set_grad_enabled(True)
     torch.manual_seed(case["seed"])
     np.random.seed(case["seed"] % (1 << 31))
     _STATE["rec"] = rec
